@@ -194,6 +194,19 @@ func Run(f any, args ...any) {
 			kick()
 		}()
 	}
+	if t == nil {
+		// not a task (the scheduler has let go of the run): a panic here - an injected crash of the disk shim, say -
+		// must still not take the simulator's process down
+		defer func() {
+			if r := recover(); r != nil {
+				gs.mu.Lock()
+				if TaskPanic == "" {
+					TaskPanic = fmt.Sprint(r)
+				}
+				gs.mu.Unlock()
+			}
+		}()
+	}
 	if fn, ok := f.(func()); ok && len(args) == 0 {
 		fn()
 		return
